@@ -21,6 +21,28 @@ def lemma(self):
     assert all(fresh._bins[x] == self._bins[x] for x in range(0, cw(self) * cd(self)))
 ''', properties=["C19"], params={"self": "obj:CountMinSketch"}, requires=["inv_cms(self)"])
 
+lemma("P.C19.heavy_hitters_clear_equals_fresh", '''
+def lemma(self):
+    self.clear()
+    fresh = HeavyHitters(self._HeavyHitters__num_hitters, cw(self), cd(self), None, None, None, self._hash_function)
+    assert cw(fresh) == cw(self) and cd(fresh) == cd(self) and ctotal(fresh) == ctotal(self)
+    assert all(fresh._bins[x] == self._bins[x] for x in range(0, cw(self) * cd(self)))
+    assert fresh._HeavyHitters__top_x == self._HeavyHitters__top_x
+    assert fresh._HeavyHitters__top_x_size == self._HeavyHitters__top_x_size
+    assert fresh._HeavyHitters__smallest == self._HeavyHitters__smallest
+    assert fresh._HeavyHitters__num_hitters == self._HeavyHitters__num_hitters
+''', properties=["C19"], params={"self": "obj:HeavyHitters"}, requires=["inv_cms(self)"])
+
+lemma("P.C19.stream_threshold_clear_equals_fresh", '''
+def lemma(self):
+    self.clear()
+    fresh = StreamThreshold(self._StreamThreshold__threshold, cw(self), cd(self), None, None, None, self._hash_function)
+    assert cw(fresh) == cw(self) and cd(fresh) == cd(self) and ctotal(fresh) == ctotal(self)
+    assert all(fresh._bins[x] == self._bins[x] for x in range(0, cw(self) * cd(self)))
+    assert fresh._StreamThreshold__meets_threshold == self._StreamThreshold__meets_threshold
+    assert fresh._StreamThreshold__threshold == self._StreamThreshold__threshold
+''', properties=["C19"], params={"self": "obj:StreamThreshold"}, requires=["inv_cms(self)"])
+
 lemma("P.C19.bitarray_clear_equals_fresh", '''
 def lemma(self):
     self.clear()
